@@ -16,6 +16,11 @@ func vh09Corpus() [][]vhsrvReq {
 	var hs [][]vhsrvReq
 	hostile := append([]string{}, vhsrvHostileNames...)
 	hostile = append(hostile, strings.Repeat("a", 65535), strings.Repeat("b", 65534)+"/", "ok\x00/..", "d1")
+	// high bytes around '/': checkSafeName works on BYTES. A 0x2f anywhere (also where a UTF-8 continuation byte is
+	// expected) must be refused; multi-byte code points that merely look like a slash must be accepted.
+	hostile = append(hostile,
+		"\xc3/", "a\xff/b", "\xe2/\x95", "\xf0\x9f/\x80", "/\xc3", "\xff/", // 0x2f next to / inside broken UTF-8: refused
+		"\xe2\x88\x95", "\xef\xbc\x8f", "\xc0\xaf", "\xe2\x81\x84", "\xc3", "a\xffb") // DIVISION SLASH, FULLWIDTH SOLIDUS, overlong '/', FRACTION SLASH, lone lead byte: accepted
 	// every name position x every hostile string (chunks of 6 strings per history)
 	for i := 0; i < len(hostile); i += 6 {
 		h := []vhsrvReq{v, at, {T: "Twalk", N: []uint64{0, 1}, S: vhsrvH("d1")}, {T: "Twalk", N: []uint64{0, 2}, S: vhsrvH("f1")}}
